@@ -352,7 +352,7 @@ func report(p *Program, id string, cfg *PropCfg, res *checkResult, tier string, 
 				discharged++
 				bySolver[o.Solver]++
 				if len(samples) < 6 && o.Solver != "trivial" {
-					samples = append(samples, map[string]any{"obligation": o.Name, "kind": o.Kind, "clause": o.Note, "goal": truncate(o.Goal.String(), 400), "solver": o.Solver})
+					samples = append(samples, map[string]any{"obligation": o.Name, "kind": o.Kind, "clause": o.Note, "goal": o.Goal.StringN(400), "solver": o.Solver})
 				}
 			} else {
 				failed = append(failed, o)
@@ -393,7 +393,7 @@ func report(p *Program, id string, cfg *PropCfg, res *checkResult, tier string, 
 		content := map[string]any{"property": id, "obligation": o.Name, "kind": o.Kind, "clause": o.Note, "position": o.Pos, "status": o.Status,
 			"solver": o.Solver, "solver_output": o.Output, "model": o.Model}
 		if o.Goal != nil {
-			content["goal"] = truncate(o.Goal.String(), 4000)
+			content["goal"] = o.Goal.StringN(4000)
 		}
 		suffix := ""
 		replayed := false
